@@ -124,9 +124,8 @@ class GotranPythonCodePrinter(PythonCodePrinter):
         return f"({self._print(lhs)} == {self._print(rhs)})"
 
     def _print_sign(self, e):
-        return "(0.0 if ({e} == 0) else {f}(1, {e}))".format(
-            f=self._module_format("numpy.copysign"), e=self._print(e.args[0])
-        )
+        # Elementwise (a conditional expression only works for scalars)
+        return f"numpy.sign({self._print(e.args[0])})"
 
 
 def get_formatter(format: Format) -> typing.Callable[[str], str]:
